@@ -953,7 +953,8 @@ theorem C08_SingleFieldSubscriptions (s : Schema) (d : QueryDoc)
   exact singleFieldSubscriptions_iff s d evs hw (opLinked_walkDoc s.view d evs hw) hschema hdef htc hne hcons
 
 /-- the same for a schema with the loader's invariants (`C07_loaded_closed`, `C07_relations_exact`)
-    whose root operation types are object types (`Spec.rootTypesAreObjects`: not enforced by the loader) -/
+    whose root operation types are object types (`Spec.rootTypesAreObjects`: an invariant of `load` since the
+    repair of the root kinds, `C07_root_types_are_objects`) -/
 theorem C08_SingleFieldSubscriptions_loaded (s : Schema) (d : QueryDoc)
     (hc : Gql.Spec.Closed s) (hr : Gql.Spec.RelationsExact s) (hroots : Gql.Spec.rootTypesAreObjects s = true)
     (hdef : Spec.fragmentSpreadTargetDefined d = true)
